@@ -10,11 +10,16 @@ CONSTANTS
   Explicit = FALSE
   CHost = "h1"
   Rich = FALSE
+  SeqSessions = FALSE
+  StaleStart = TRUE
+  Careless = FALSE
+  AliasHosts <- MCNoAlias
+  CliHosts <- MCCliAll
   Verifiers <- MCVerifiersS
   MintPlaces <- MCPlaces3
 INIT Init
 NEXT Next
 VIEW View
 CONSTRAINT Bound
-INVARIANTS TypeOK TokensProven ClientReports KindsSeparate
-PROPERTIES ServerReports BearerReports Integrity ClientOpReports
+INVARIANTS TypeOK TokensProven ClientReports KindsSeparate CacheProven
+PROPERTIES ServerReports BearerReports Integrity ClientOpReports TokReports
